@@ -44,7 +44,11 @@ func c17sm2Scenarios() []*sched.Scenario {
 		}
 		verify := func() string { ok, err := sm2.VerifyHashed(pxx, pyy, ee, r, s); return fmt.Sprint(ok, err) }
 		derive := func() string { a, b, err := sm2.DerivePublic(dd); return fmt.Sprintf("%x %x %v", a, b, err) }
-		return [][]sched.Op{{{"SignHashed", sign(k1)}, {"VerifyHashed", verify}}, {{"VerifyHashed", verify}, {"DerivePublic", derive}}, {{"DerivePublic", derive}, {"SignHashed", sign(k2)}}}
+		// a second, different private key for the third signer (state cached per key would be exposed)
+		d2 := b32(modN(bi(vx.Fill("c17d2", 32))))
+		share(x, "priv2", d2)
+		sign2 := func() string { a, b, err := sm2.SignHashed(stream(k2), d2, ee); return fmt.Sprintf("%x %x %v", a, b, err) }
+		return [][]sched.Op{{{"SignHashed", sign(k1)}, {"VerifyHashed", verify}}, {{"VerifyHashed", verify}, {"DerivePublic", derive}, {"SignHashed", sign(k2)}}, {{"DerivePublic", derive}, {"SignHashed2", sign2}}}
 	}})
 	out = append(out, &sched.Scenario{Name: "S5-za-signza-sm3", Build: func(x *sched.Exec) [][]sched.Op {
 		dd, pxx, pyy, idd, mm := append([]byte{}, d...), append([]byte{}, px...), append([]byte{}, py...), append([]byte{}, id...), append([]byte{}, msg...)
